@@ -515,10 +515,11 @@ std::string gen(Rng &r) {
 }
 
 int drive(Ctx &ctx) {
-    if (!ctx.replaying && ctx.shard == 0) {
-        // fixed corpus: boundary lines of exactly 106/107/108 bytes, each port boundary, every v2 (ver/cmd, fam/proto) byte pair at minimal length
-        long n = 0;
-        auto go = [&](const std::string &w) { ctx.begin(w); run(ctx, w); ++n; };
+    if (!ctx.replaying) {
+        // fixed corpus (split over the shards): boundary lines of 100..112 bytes, each port boundary,
+        // v2 (ver/cmd, fam/proto) byte pairs at minimal length (thorough: all 65536 pairs)
+        long n = 0, idx = 0;
+        auto go = [&](const std::string &w) { if (idx++ % ctx.nshards != ctx.shard) return; ctx.begin(w); run(ctx, w); ++n; };
         for (size_t total = 100; total <= 112; ++total) {
             const std::string head = "PROXY UNKNOWN ";
             go(head + std::string(total - head.size() - 2, 'u') + "\r\n");
